@@ -1524,4 +1524,44 @@ theorem grouped_alias_filter_refines {c : Ast} {sc : List Uid} (h : Base c sc) (
   obtain ⟨rs, ns, hcs, hready, href⟩ := grouped_below h hm db j i K hK hKsc hKnc hKnd hKvis L metas hv hfresh hnd _ hneed1 hnames
   exact filter_above_marker db f m _ W needed rs ns hcs hready href hW (fun u hu => by rw [href.sel]; exact hWu u hu)
 
+/-! ### the top-level call -/
+
+/-- `build_select` starts the compiler with every selected column of the final table needed once
+    (`compile_ast(nd, {col._uuid: 1 for col in final_select})`) -/
+def topNeeded (vis : List Uid) : Needed := vis.map (fun u => (u, 1))
+
+theorem top_needed_low : ∀ (vis : List Uid) (u : Uid), u ∈ vis → 1 ≤ low (topNeeded vis) u
+  | [], _, h => by simp at h
+  | v :: vs, u, h => by
+      unfold topNeeded
+      rw [List.map_cons, low_cons]
+      by_cases hvu : v = u
+      · simp [hvu]
+      · simp only [hvu, ↓reduceIte]
+        rcases List.mem_cons.1 h with h | h
+        · exact absurd h.symm hvu
+        · exact top_needed_low vs u h
+
+/-- the marker as the last node of a row-level pipeline, compiled the way `build_select` calls the compiler -/
+theorem frag_marker_top {c : Ast} {sc : List Uid} (h : Frag c sc) (db : DB) (i : NodeId)
+    (hnames : ((Spec.run db c).visible.map (·.1)).Nodup) :
+    ∃ r2 n2, compile (.subqueryMarker i c) (topNeeded ((Spec.run db c).visible.map (·.2))) = .ok (r2, n2) ∧
+      Sql.run db r2 = (Spec.run db (.subqueryMarker i c)).frame :=
+  frag_marker_refines h db i _ (fun e he => top_needed_low _ e.2 (List.mem_map.2 ⟨e, he, rfl⟩)) hnames
+
+/-- `mutate(w = window fn) >> alias() >> filter(…)` as the whole pipeline, compiled the way `build_select` calls the compiler: the
+    counter holds the visible columns of the base pipeline and the new window columns (a superset of the final selection when a new
+    column overwrites an old name) -/
+theorem window_alias_filter_top {c : Ast} {sc : List Uid} (h : Base c sc) (hm : NeededMono c) (db : DB) (j m i : NodeId)
+    (L : List (String × Uid × Expr)) (metas : List (Dtype × Ftype))
+    (hv : ∀ t ∈ L, ∀ u ∈ t.2.2.uids, u ∈ sc) (hna : ∀ t ∈ L, isAggQuery.aggNodes t.2.2 = false)
+    (hfresh : ∀ t ∈ L, t.2.1 ∉ sc) (hnd : (L.map (·.2.1)).Nodup)
+    (hnames : ((Spec.run db (.mutate i c (L.map (·.1)) (L.map (·.2.2)) (L.map (·.2.1)) metas)).visible.map (·.1)).Nodup)
+    (W : List Expr) (hW : isEwiseList W = true)
+    (hWu : ∀ u ∈ Expr.uidsList W, u ∈ (Spec.run db (.mutate i c (L.map (·.1)) (L.map (·.2.2)) (L.map (·.2.1)) metas)).visible.map (·.2)) :
+    ∃ r3 n3, compile (.filter j (.subqueryMarker m (.mutate i c (L.map (·.1)) (L.map (·.2.2)) (L.map (·.2.1)) metas)) W)
+        (topNeeded ((Spec.run db c).visible.map (·.2) ++ L.map (·.2.1))) = .ok (r3, n3) ∧
+      Sql.run db r3 = (Spec.run db (.filter j (.subqueryMarker m (.mutate i c (L.map (·.1)) (L.map (·.2.2)) (L.map (·.2.1)) metas)) W)).frame :=
+  window_alias_filter_refines h hm db j m i L metas hv hna hfresh hnd _ (fun u hu => top_needed_low _ u hu) hnames W hW hWu
+
 end Pdt.C08
